@@ -23,7 +23,7 @@ import (
 func TestVerifC15(t *testing.T) {
 	vfMain(t, vfCheck{
 		ID: "C15", Level: "exploration",
-		Rule:        "many short histories: 2..8 goroutines x 5..12 single-packet operations (ReadAt, WriteAt with a fill value unique in the history, size queries via File.Stat and Client.Stat) on a 16..64-byte file through 1..3 handles of one Client; request server over the mutex-atomic store: multi-byte operations, one partition; os-backed server: 1-byte operations partitioned by offset (a pread concurrent with a pwrite may tear on the page cache; a byte cannot). Allocator on/off, reorder proxy, worker/ready hook delays, GOMAXPROCS in {1,2,4,16}. Plus, in every eighth unit: whole-range writes against maximum-size reads (32 KiB, and 48 KiB with the maximum payload raised to 64 KiB) that must be uniform and reach the store as one ReadAt each; and concurrent Write resp. Read calls on ONE File (implicit offset) with unique 16-byte records inside a pre-sized file, which must leave every record exactly once resp. partition the file. Checked with porcupine v1.3.0 (60 s cap => inconclusive). A class is (server, allocator, goroutines, handles, GOMAXPROCS); non-trivial when operations really overlapped in time.",
+		Rule:        "many short histories: 2..8 goroutines x 5..12 single-packet operations (ReadAt, WriteAt with a fill value unique in the history, size queries via File.Stat and Client.Stat) on a 16..64-byte file through 1..3 handles of one Client; request server over the mutex-atomic store: multi-byte operations, one partition; os-backed server: 1-byte operations partitioned by offset (a pread concurrent with a pwrite may tear on the page cache; a byte cannot). Allocator on/off, reorder proxy, worker/ready hook delays, GOMAXPROCS in {1,2,4,16}. Plus, in every eighth unit: whole-range writes against maximum-size reads (32 KiB, and 48 KiB with the maximum payload raised to 64 KiB) that must be uniform and reach the store as one ReadAt each; and concurrent Write resp. Read calls on ONE File (implicit offset) with unique 16-byte records inside a pre-sized file, which must leave every record exactly once resp. partition the file. Checked with porcupine v1.3.0 (time limit 3 min quick / 10 min thorough per history; a history the checker gives up on is counted as undecided, the run is inconclusive only if decided histories fall below the floor). A class is (server, allocator, goroutines, handles, GOMAXPROCS); non-trivial when operations really overlapped in time.",
 		Assumptions: []string{"the backing store's own ReadAt/WriteAt are atomic (store mutex; single bytes on the os file)", "file size does not change", "race detector on"},
 		Units: func(tier vfTier, seed uint64) int {
 			if tier == vfThorough {
@@ -37,7 +37,7 @@ func TestVerifC15(t *testing.T) {
 			}
 			return 8
 		},
-		Floors: map[string]int64{"histories": 200, "big_read_histories": 8, "shared_offset_histories": 12, "operations": 5000, "overlapping_operation_pairs": 5000},
+		Floors: map[string]int64{"histories": 200, "histories_decided": 195, "big_read_histories": 8, "shared_offset_histories": 12, "operations": 5000, "overlapping_operation_pairs": 5000},
 		Run:    c15Run,
 	})
 }
@@ -532,12 +532,23 @@ func c15Run(u *vfUnit) {
 			}
 			// in a per-offset partition the state is still the whole array; operations touch only their byte
 		}
-		res := porcupine.CheckOperationsTimeout(m, ops, 60*time.Second)
+		// The checker's time limit is a safety net in wall-clock time and says nothing about the history: on a
+		// loaded machine a 60 s limit was once hit by an ordinary 66-operation history. The limit is generous,
+		// a history the checker gives up on is counted as undecided (neither held nor violated), and the
+		// run as a whole is inconclusive only if the decided histories fall below the coverage floor.
+		limit := 3 * time.Minute
+		if u.Tier == vfThorough {
+			limit = 10 * time.Minute
+		}
+		res := porcupine.CheckOperationsTimeout(m, ops, limit)
 		switch res {
 		case porcupine.Illegal:
+			u.Count("histories_decided", 1)
 			u.Violation("not-linearizable:"+kind.String(), fmt.Sprintf("%s: the recorded history of %d operations has no sequential explanation that respects real-time order", label, len(ops)), witness())
 		case porcupine.Unknown:
-			u.Inconclusive("%s: porcupine timed out on %d operations", label, len(ops))
+			u.Count("histories_undecided_checker_time_limit", 1)
+		default:
+			u.Count("histories_decided", 1)
 		}
 		if hi == 0 {
 			w := witness()
